@@ -59,6 +59,7 @@ def run_dir(name, clean=True):
 
 
 _STATS = re.compile(r'(\d+) states generated, (\d+) distinct states found')
+_SIM = re.compile(r'The number of states generated: (\d+)')
 _INIT = re.compile(r'Finished computing initial states: (\d+) distinct state')
 _INIT2 = re.compile(r'Finished computing initial states: (\d+) states generated, with (\d+) of them distinct')
 _INV = re.compile(r'Error: Invariant (\S+) is violated')
@@ -125,6 +126,9 @@ def run_tlc(module, cfg_text, rundir, workers=1, env=None, extra=None, timeout=1
     m = _STATS.search(line)
     if m:
       r.generated, r.distinct = int(m.group(1)), int(m.group(2))
+    m = _SIM.search(line)
+    if m:
+      r.generated = int(m.group(1))
     m = _INIT.search(line)
     if m:
       r.init_states = int(m.group(1))
